@@ -397,6 +397,9 @@ func (a *Activation) constVal(c *ssa.Const) Val {
 		return Val{K: KF64, S: realLit(c.Value), T: T}
 	case KF32:
 		f, _ := constant.Float32Val(c.Value)
+		if !t.bv {
+			return Val{K: KF32, S: realLit(constant.MakeFloat64(float64(f))), T: T}
+		}
 		return Val{K: KF32, S: f32Lit(f), T: T}
 	case KStr:
 		return Val{K: KStr, S: sInt(int64(t.eng.strID(constant.StringVal(c.Value)))), T: T}
@@ -744,7 +747,11 @@ func (a *Activation) unop(in *ssa.UnOp, st *State) *State {
 		case KF64:
 			a.env[in] = Val{K: KF64, S: "(- " + x.S + ")", T: in.Type()}
 		case KF32:
-			a.env[in] = Val{K: KF32, S: "(fp.neg " + x.S + ")", T: in.Type()}
+			if !t.bv {
+				a.env[in] = Val{K: KF32, S: "(- " + x.S + ")", T: in.Type()}
+			} else {
+				a.env[in] = Val{K: KF32, S: "(fp.neg " + x.S + ")", T: in.Type()}
+			}
 		default:
 			t.errorf("%s: negation of %s", a.fn, x.K)
 		}
@@ -850,13 +857,19 @@ func (a *Activation) binop(in *ssa.BinOp, st *State) Val {
 	case KF64:
 		switch in.Op {
 		case token.ADD:
+			if t.isIntReal(x.S) && t.isIntReal(y.S) {
+				return Val{K: KF64, S: a.exactInt("(+ "+x.S+" "+y.S+")", st, in.Pos()), T: T}
+			}
 			return Val{K: KF64, S: t.rnd64("(+ "+x.S+" "+y.S+")", st), T: T}
 		case token.SUB:
+			if t.isIntReal(x.S) && t.isIntReal(y.S) {
+				return Val{K: KF64, S: a.exactInt("(- "+x.S+" "+y.S+")", st, in.Pos()), T: T}
+			}
 			return Val{K: KF64, S: t.rnd64("(- "+x.S+" "+y.S+")", st), T: T}
 		case token.MUL:
-			return Val{K: KF64, S: t.rnd64("(* "+x.S+" "+y.S+")", st), T: T}
+			return Val{K: KF64, S: t.rnd64(t.realMul(x.S, y.S, st), st), T: T}
 		case token.QUO:
-			return Val{K: KF64, S: t.rnd64("(/ "+x.S+" "+y.S+")", st), T: T}
+			return Val{K: KF64, S: t.rnd64(t.realDiv(x.S, y.S, st), st), T: T}
 		case token.LSS:
 			return Val{K: KBool, S: "(< " + x.S + " " + y.S + ")", T: T}
 		case token.LEQ:
@@ -867,6 +880,20 @@ func (a *Activation) binop(in *ssa.BinOp, st *State) Val {
 			return Val{K: KBool, S: "(>= " + x.S + " " + y.S + ")", T: T}
 		}
 	case KF32:
+		if !t.bv {
+			switch in.Op {
+			case token.LSS:
+				return Val{K: KBool, S: "(< " + x.S + " " + y.S + ")", T: T}
+			case token.LEQ:
+				return Val{K: KBool, S: "(<= " + x.S + " " + y.S + ")", T: T}
+			case token.GTR:
+				return Val{K: KBool, S: "(> " + x.S + " " + y.S + ")", T: T}
+			case token.GEQ:
+				return Val{K: KBool, S: "(>= " + x.S + " " + y.S + ")", T: T}
+			}
+			a.modeUnreachable(st, "float32 arithmetic outside 'mode bv64'", in.Pos())
+			return t.freshValue(st.pc, "f32op", T)
+		}
 		switch in.Op {
 		case token.ADD:
 			return Val{K: KF32, S: "(fp.add RNE " + x.S + " " + y.S + ")", T: T}
@@ -920,6 +947,9 @@ func (a *Activation) valEq(x, y Val) string {
 		// only comparison with nil is legal
 		return sEq(x.Fields[0].S, y.fieldOrZero(0))
 	case KF32:
+		if !gBV {
+			return sEq(x.S, y.S)
+		}
 		return "(fp.eq " + x.S + " " + y.S + ")"
 	case KFunc:
 		return sEq(x.S, y.S)
@@ -1177,17 +1207,22 @@ func (a *Activation) convert(in *ssa.Convert, st *State) Val {
 		return Val{K: KInt, S: x.S, T: T}
 	case from == KInt && to == KF64:
 		if t.bv {
-			t.errorf("%s: int->float64 in bv mode", a.fn)
+			a.modeUnreachable(st, "int->float64 conversion in a 'mode bv64' case", in.Pos())
+			return t.freshValue(st.pc, "f64", T)
 		}
-		return Val{K: KF64, S: t.rnd64("(to_real "+x.S+")", st), T: T}
+		return Val{K: KF64, S: a.exactInt("(to_real "+x.S+")", st, in.Pos()), T: T}
 	case from == KF64 && to == KInt:
+		if t.bv {
+			a.modeUnreachable(st, "float64->int conversion in a 'mode bv64' case", in.Pos())
+			return t.freshValue(st.pc, "i", T)
+		}
 		r := t.truncReal(x.S)
 		// out-of-range conversions are implementation-defined in Go: obligation keeps us in range
 		a.obligeSafety(st, "ovf", "float64->int", inRangeTerm(r, T), in.Pos())
 		return Val{K: KInt, S: r, T: T}
 	case from == KInt && to == KF32:
 		if !t.bv {
-			t.errorf("%s: int->float32 needs '//@ mode bv64'", a.fn)
+			a.modeUnreachable(st, "int->float32 conversion outside 'mode bv64'", in.Pos())
 			return t.freshValue(st.pc, "f32", T)
 		}
 		if isUnsigned(XT) {
@@ -1196,7 +1231,7 @@ func (a *Activation) convert(in *ssa.Convert, st *State) Val {
 		return Val{K: KF32, S: "((_ to_fp 8 24) RNE " + x.S + ")", T: T}
 	case from == KF32 && to == KInt:
 		if !t.bv {
-			t.errorf("%s: float32->int needs '//@ mode bv64'", a.fn)
+			a.modeUnreachable(st, "float32->int conversion outside 'mode bv64'", in.Pos())
 			return t.freshValue(st.pc, "i", T)
 		}
 		// in range: exact truncation; out of range: unspecified value (Go spec: implementation specific)
@@ -1208,8 +1243,18 @@ func (a *Activation) convert(in *ssa.Convert, st *State) Val {
 	case from == KF64 && to == KF64, from == KF32 && to == KF32, from == KStr && to == KStr:
 		x.T = T
 		return x
-	case from == KF32 && to == KF64, from == KF64 && to == KF32:
-		t.errorf("%s: float32<->float64 conversion outside the subset", a.fn)
+	case from == KF32 && to == KF64:
+		if !t.bv {
+			// exact: every float32 is a float64
+			if t.realInt == nil {
+				t.realInt = map[string]bool{}
+			}
+			return Val{K: KF64, S: x.S, T: T}
+		}
+		a.modeUnreachable(st, "float32->float64 conversion in 'mode bv64'", in.Pos())
+		return t.freshValue(st.pc, "f64", T)
+	case from == KF64 && to == KF32:
+		t.errorf("%s: float64->float32 conversion outside the subset", a.fn)
 	case from == KRef && to == KRef:
 		x.T = T
 		return x
@@ -1220,6 +1265,16 @@ func (a *Activation) convert(in *ssa.Convert, st *State) Val {
 	}
 	t.errorf("%s: unsupported conversion %s -> %s", a.fn, XT, T)
 	return t.freshValue(st.pc, "conv", T)
+}
+
+// modeUnreachable: an operation that the numeric mode of this case cannot encode must be unreachable under the
+// case's preconditions (another case of the same function covers it in the other mode).
+func (a *Activation) modeUnreachable(st *State, what string, pos token.Pos) {
+	t := a.t
+	a.arith["mode"]++
+	name := fmt.Sprintf("%s#modecase[%d]", fullName(a.fn), a.arith["mode"])
+	o := t.oblige("modecase", name, "", st.pc, tFalse, posStr(t.eng.fset, pos), what+" must be unreachable in this case")
+	o.Fn = fullName(a.fn)
 }
 
 func rangeWithin(lo1, hi1, lo2, hi2 string) bool {
